@@ -13,6 +13,8 @@ import os
 import random
 import subprocess
 
+import numpy as np
+
 from . import common, sas, c01
 from .common import Finding
 
@@ -521,6 +523,63 @@ def main(run):
                     i, req["op"], req["model"], got["earlier_results_changed"]), desc))
             if got.get("args_unchanged") is False:
                 run.add(Finding("C11:args-modified:%s" % req["op"], "%s(%s) modified its argument objects" % (req["op"], req["model"]), desc))
+    # ---- data arrays supplied by the caller (detector coordinates, per-pixel resolution, intensities, masks; 1-D
+    # q, dq and slit arrays) are left as they were: resolution widths of exactly zero or below the smallest usable
+    # width included, with and without an excluded point, through DirectModel on a data object and the Iq / Iqxy helpers
+    from sasmodels import direct_model as _dm
+    from sasmodels.core import load_model as _load_model
+    from sasmodels.data import Data1D as _D1, Data2D as _D2
+    stats["caller_array_cases"] = 0
+    for cname in ("sphere", "cylinder"):
+        cmodel = _load_model(cname)
+        for rep in range(4 if not thorough else 12):
+            npix = rng.randint(12, 40)
+            qx = np.array([rng.choice([-1, 1]) * rng.uniform(0.01, 0.2) for _ in range(npix)])
+            qy = np.array([rng.choice([-1, 1]) * rng.uniform(0.01, 0.2) for _ in range(npix)])
+            dqx = np.array([rng.choice([0.0, 1e-12, rng.uniform(1e-3, 1e-2)]) for _ in range(npix)])
+            dqy = np.array([rng.choice([0.0, 1e-12, rng.uniform(1e-3, 1e-2)]) for _ in range(npix)])
+            zz = np.array([rng.uniform(1, 2) for _ in range(npix)])
+            if rep % 2 == 1:
+                zz[rng.randrange(npix)] = float("nan")        # one excluded pixel
+            arrays = dict(qx=qx, qy=qy, dqx=dqx, dqy=dqy, z=zz)
+            before = {k: v.copy() for k, v in arrays.items()}
+            how = "DirectModel(Data2D)" if rep % 4 < 2 else "Iqxy(dqx=, dqy=)"
+            try:
+                if rep % 4 < 2:
+                    data = _D2(x=qx, y=qy, z=zz, dx=dqx, dy=dqy)
+                    data.err_data = np.ones(npix)
+                    calc = _dm.DirectModel(data, cmodel)
+                    calc(radius=rng.uniform(20, 60)); calc(radius=rng.uniform(20, 60))
+                else:
+                    _dm.Iqxy(cname, qx, qy, dqx=dqx, dqy=dqy, radius=rng.uniform(20, 60))
+            except Exception as exc:  # noqa
+                run.add(Finding("C11:caller-arrays:error", "%s on %s with caller arrays raised %r" % (how, cname, exc), dict(model=cname, arrays={k: v.tolist() for k, v in before.items()})))
+                continue
+            stats["caller_array_cases"] += 1
+            changed = [k for k in arrays if not np.array_equal(arrays[k], before[k], equal_nan=True)]
+            if changed:
+                k0 = changed[0]
+                idx = [int(i) for i in np.nonzero(~((arrays[k0] == before[k0]) | (np.isnan(arrays[k0]) & np.isnan(before[k0]))))[0][:5]]
+                run.add(Finding("C11:caller-arrays:2d", "%s on %s changed the caller's %s array(s): %s[%s] went from %s to %s" % (
+                    how, cname, changed, k0, idx, before[k0][idx].tolist(), arrays[k0][idx].tolist()),
+                    dict(model=cname, how=how, arrays={k: v.tolist() for k, v in before.items()}, changed=changed)))
+            # 1-D: q not sorted, pinhole widths with zeros; slit lengths/widths as arrays
+            n1 = rng.randint(6, 20)
+            q1 = np.array([rng.uniform(0.005, 0.3) for _ in range(n1)])
+            dq1 = np.array([rng.choice([0.0, rng.uniform(1e-4, 5e-3)]) for _ in range(n1)])
+            y1 = np.array([rng.uniform(1, 2) for _ in range(n1)])
+            arrays = dict(q=q1, dq=dq1, y=y1)
+            before = {k: v.copy() for k, v in arrays.items()}
+            if rep % 2 == 0:
+                d1 = _D1(x=q1, y=y1, dx=dq1, dy=np.ones(n1))
+                _dm.DirectModel(d1, cmodel)(radius=rng.uniform(20, 60)); how = "DirectModel(Data1D with dx)"
+            else:
+                _dm.Iq(cname, q1, dq=dq1, radius=rng.uniform(20, 60)); how = "Iq(dq=)"
+            stats["caller_array_cases"] += 1
+            changed = [k for k in arrays if not np.array_equal(arrays[k], before[k], equal_nan=True)]
+            if changed:
+                run.add(Finding("C11:caller-arrays:1d", "%s on %s changed the caller's %s array(s)" % (how, cname, changed),
+                                dict(model=cname, how=how, arrays={k: v.tolist() for k, v in before.items()}, changed=changed)))
     for h in histories[:3]:
         run.sample([dict(op=r["op"], model=r.get("model"), q=r.get("q"), pars=r.get("pars") or r.get("settings")) for r in h[:6]])
     run.coverage.update(evaluations=stats["requests"], distinct_nontrivial=len(nontrivial), traces_validated_against_impl=len(histories),
